@@ -42,19 +42,25 @@ Proof.
   apply G. intros p Hp. eapply in_combine_fst. exact Hp.
 Qed.
 
-(** F1 is the unweighted part of F2 *)
+(** F1 is the part of F2 without weights and with one crossing *)
 Theorem frag1_frag2 : frag2 fb = true.
 Proof.
   destruct frag1_parts as (H1 & H2 & H3 & H4 & H5 & H6 & H7 & H8 & H9 & H10).
-  unfold frag2. rewrite H1, H2, H3, H4, H5, H7, H9, H10. cbn [andb]. rewrite !andb_true_r.
+  unfold frag2. rewrite H2, H3, H4, H5, H9. cbn [andb]. rewrite !andb_true_r.
+  unfold single_plain_crossing in H1. unfold size_matches1 in H8. unfold plain_geometry in H7.
+  unfold unit_weights in H6. apply andb_prop in H6. destruct H6 as [H6 _].
+  pose proof frag1_combo_weight as Hcw.
+  destruct (fl_crossings fb) as [|c [|? ?]] eqn:Ec; try discriminate.
+  destruct (fl_sustains fb) as [|[|[|?]] [|? ?]] eqn:Es; try discriminate.
+  destruct (fl_weights fb) as [|[|[|?]] [|? ?]] eqn:Ew; try discriminate.
+  destruct (fl_preambles fb) as [|[|?] [|? ?]] eqn:Ep; try discriminate.
+  destruct (fl_sizes fb) as [|s0 [|? ?]] eqn:Ez; try discriminate.
   apply andb_true_intro. split.
-  - unfold unit_weights in H6. apply andb_prop in H6. destruct H6 as [H6 _]. unfold weights_ok.
-    destruct (fl_weights fb) as [|[|[|?]] [|? ?]]; try discriminate. reflexivity.
-  - unfold size_matches1 in H8. unfold size_matches2.
-    destruct (fl_crossings fb) as [|c [|? ?]] eqn:Ec; try discriminate.
-    destruct (fl_sizes fb) as [|s0 [|? ?]]; try discriminate.
-    rewrite (list_sum_ones (fun ls => combo_weight fb (combine c ls))); [exact H8|].
-    intros ls _. apply frag1_combo_weight. exact Ec.
+  - unfold plain_crossings. rewrite Ec, Es, Ew, Ep, Ez. cbn [length forallb combine Nat.ltb Nat.leb Nat.eqb andb].
+    unfold crossing_plain. rewrite H1, H7. cbn [andb]. unfold crossing_size_ok. cbn [fst snd].
+    rewrite (list_sum_ones (fun ls => combo_weight fb (combine c ls))) by (intros ls _; apply Hcw; reflexivity).
+    rewrite H8. reflexivity.
+  - cbn [length Nat.eqb]. rewrite andb_true_r. exact H10.
 Qed.
 
 Lemma frag1_weight : the_weight fb = 1.
@@ -68,7 +74,9 @@ Lemma frag1_unw : f0_unw fb = true.
 Proof.
   unfold f0_unw, p_unw. rewrite (f0_cws_eq fb frag1_frag2). apply forallb_forall. intros x Hx.
   apply in_map_iff in Hx. destruct Hx as [ls [E _]]. subst x. unfold f0_cw.
-  rewrite frag1_combo_weight by (apply (f0_crossings fb (f0_unpack fb frag1_frag2))). rewrite frag1_weight. reflexivity.
+  rewrite frag1_combo_weight; [rewrite frag1_weight; reflexivity|].
+  destruct frag1_parts as (H1 & _). unfold single_plain_crossing in H1. unfold the_crossing.
+  destruct (fl_crossings fb) as [|c [|? ?]]; try discriminate. reflexivity.
 Qed.
 
 Local Notation H2 := frag1_frag2.
